@@ -117,4 +117,9 @@ def superCached (w : World) (name : String) (cache : ICache) (sup : Nat) : Res Ã
 module's cache vectors are created with. -/
 def emitIds (n : Nat) : List Nat Ã— Nat := (List.range n, n)
 
+/-- The same for a compile whose emitter was created by `CacheIdEmitter::new(start, ..)` (the REPL's
+module from its second compiled entry on, `Vm::compile`): the ids continue after the `start` ids
+already handed out, and the module's vectors are grown (`InlineCache::grow`) to the final count. -/
+def emitIdsFrom (start n : Nat) : List Nat Ã— Nat := (List.range' start n, start + n)
+
 end LaytheVerif.Cache
